@@ -84,6 +84,27 @@ func Order(keys []string) {
 	}
 }
 
+// OrderU32 is Order for uint32 keys.
+func OrderU32(keys []uint32) {
+	sort.Slice(keys, func(i, j int) bool { return keys[i] < keys[j] })
+	if cur == nil || len(keys) <= 1 {
+		return
+	}
+	ps := perms(len(keys))
+	c := 0
+	if len(cur.trace) < len(cur.prefix) {
+		c = cur.prefix[len(cur.trace)]
+		if c >= len(ps) {
+			panic(fmt.Sprintf("VERIF-INFRA vnd replay diverged: choice %d of %d", c, len(ps)))
+		}
+	}
+	cur.trace = append(cur.trace, choice{len(ps), c})
+	src := append([]uint32{}, keys...)
+	for i, j := range ps[c] {
+		keys[i] = src[j]
+	}
+}
+
 type Stats struct {
 	Executions   int64
 	ChoicePoints int64
